@@ -17,6 +17,8 @@ import (
 	"fmt"
 	"strings"
 	"time"
+
+	"github.com/krotik/ecal/parser"
 )
 
 const c04interpHeader = "From Coq Require Import ZArith NArith String List.\nFrom Ecal Require Import Common.Ast gen.Tokens Model.ControlSyntax Run.RunC06Interp Run.RunC04Interp.\nImport ListNotations.\nOpen Scope string_scope."
@@ -75,6 +77,39 @@ type c04icase struct {
 	Origin string    `json:"origin,omitempty"`
 }
 
+// The statements of the prelude are the first children of every tree (same text, same lines):
+// they are written once per cases file (PRE0 / PRE1 in the preamble) instead of once per case,
+// which is what makes the shards small enough for coqc.
+var c04prePlain, c04preGuards string
+
+func c04preChildren(src string) string {
+	ast, err := parser.Parse("c04i", src)
+	if err != nil || ast == nil {
+		panic("c04: the prelude does not parse: " + fmt.Sprint(err))
+	}
+	var parts []string
+	for _, ch := range ast.Children {
+		parts = append(parts, c06iTree(ch))
+	}
+	return strings.Join(parts, "; ")
+}
+
+func c04interpPreamble() string {
+	c04prePlain = c04preChildren(c04purePrelude)
+	c04preGuards = c04preChildren(c04purePrelude + c04prelude())
+	return c04interpHeader + "\nDefinition PRE0 : list node := [" + c04prePlain + "].\nDefinition PRE1 : list node := [" + c04preGuards + "]."
+}
+
+// c04factorTree replaces the prelude children of the root by PRE0 / PRE1.
+func c04factorTree(tree string) string {
+	for _, p := range []struct{ name, pre string }{{"PRE1", c04preGuards}, {"PRE0", c04prePlain}} {
+		if i := strings.Index(tree, "["+p.pre+"; "); i >= 0 && strings.HasSuffix(tree, "])") {
+			return tree[:i] + "(" + p.name + " ++ [" + tree[i+len(p.pre)+3:len(tree)-2] + "]))"
+		}
+	}
+	return tree
+}
+
 func c04interpOne(c *Ctx, d c04case) {
 	src := c04pureSource(d.Prog)
 	ic := c04icase{Stream: "interp", Prog: d.Prog, Source: src, Origin: d.Origin}
@@ -95,14 +130,21 @@ func c04interpOne(c *Ctx, d c04case) {
 		c.Count("i:"+term, true, ic)
 		return
 	}
+	tree := c04factorTree(o.Tree)
+	if len(tree) > c.Pick(22000, 90000) {
+		// coqc needs ~14 ms per 100 bytes of tree term: very large programs are left to the
+		// thorough tier (counted)
+		c.Dist["interp_skipped_large_tree"]++
+		return
+	}
 	id := c.NewID()
-	c.AddCase(id, fmt.Sprintf("mkC4I %d%%N (%s)%%nat %s %s %s %s", id, term, o.Tree, o.Nums, o.Strs, o.Obs), ic, "i:"+term, true)
+	c.AddCase(id, fmt.Sprintf("mkC4I %d%%N (%s)%%nat %s %s %s %s", id, term, tree, o.Nums, o.Strs, o.Obs), ic, "i:"+term, true)
 }
 
 // c04interpStream runs the three-way comparison on the programs collected by the first stream.
 func c04interpStream(c *Ctx, progs []c04case) {
 	c.flushShard()
-	c.BeginCases(c04interpHeader, "case4", 40)
+	c.BeginCases(c04interpPreamble(), "case4", 10)
 	defer c.flushShard()
 	for _, d := range progs {
 		if c.Enough() {
